@@ -127,12 +127,16 @@ def run(ctx):
             cells.append([rnd.choice(cmds), rnd.randrange(130), a, b, rnd.choice(b16)])
     bts, dec = [], []
     for c in cells:
-        nn = api.Note(note=c[0], vel=c[1], module=c[2], ctl=c[3], val=c[4])
-        raw = nn.raw_data
-        bts.append(list(raw))
-        n2 = api.Note()
-        n2.raw_data = raw
-        dec.append([int(n2.note), n2.vel, n2.module, n2.ctl, n2.val])
+        try:
+            nn = api.Note(note=c[0], vel=c[1], module=c[2], ctl=c[3], val=c[4])
+            raw = nn.raw_data
+            bts.append(list(raw))
+            n2 = api.Note()
+            n2.raw_data = raw
+            dec.append([int(n2.note), n2.vel, n2.module, n2.ctl, n2.val])
+        except Exception:               # an in-domain note that cannot be built / encoded / decoded
+            bts.append([])
+            dec.append([])
         ctx.count_case(tuple(c), nontrivial=any(c))
     for i in range(0, len(cells), 4000):
         events.append({"op": "notes", "cells": cells[i:i + 4000], "bytes": bts[i:i + 4000], "decoded": dec[i:i + 4000]})
